@@ -930,9 +930,15 @@ class Interceptor:
 # one execution
 # ---------------------------------------------------------------------------------------------------------------------
 
-def _restrict(w: TunnelWorld, h: int, spare: bool) -> None:
+def _restrict(w: TunnelWorld, h: int, spare: bool, free_exit: bool = False) -> None:
+    """free_exit (spare worlds, h >= 2): the last relay offers two exits [X, S]; the originator has no required exit."""
     first = [PATHS[h][0]] if h > 1 else []
     w.restrict("O", [*first, "X", *(["S"] if spare and h > 1 else [])])
+    if free_exit:
+        w.restrict(PATHS[h][-2], ["X", "S"])
+        if h == 3:
+            w.restrict("R1", ["R2"])
+        return
     if h == 3:
         w.restrict("R1", ["R2", *(["T"] if spare else [])])
         w.restrict("R2", ["X"])
@@ -1005,10 +1011,14 @@ def run_one(scn: tuple, plan: list[dict], seed: int):  # noqa: ANN201
             _batch_delivery(w, icp)
         ov = w.ov["O"]
         exit_peer = w.peer_of("O", "X")
-        _restrict(w, h, spare)
+        app = next((m for m in plan if m["site"] == "app"), None)
+        free_exit = bool(app and app.get("free_exit"))
+        _restrict(w, h, spare, free_exit)
         circuits = []
         for _ in range(ncirc):
-            if hist is not None:
+            if free_exit:
+                c = w.nodes["O"].run(ov.create_circuit, h)
+            elif hist is not None:
                 # let the originator pick the exit from its own candidate table (only X qualifies after _restrict)
                 c = w.nodes["O"].run(ov.create_circuit, h, exit_flags=[PEER_FLAG_EXIT_BT])
             else:
@@ -1016,8 +1026,10 @@ def run_one(scn: tuple, plan: list[dict], seed: int):  # noqa: ANN201
             if c is None:
                 return [("honest:create_circuit-refused" if hist is not None else "harness:create_circuit-refused", f"{scn} plan={_show(plan)}: the originator could not start the circuit")], None, {}
             circuits.append(c)
+        if app is not None:
+            _start_waiter(w, mon, icp, circuits[0], app)
         w.flush()
-        honest = all(m["site"] in ("sched", "history") for m in plan)
+        honest = all(m["site"] in ("sched", "history", "app") for m in plan)
         if honest:
             _honest_checks(w, mon, circuits, h, "after build")
         gaps = [p for p in icp.pending if p["cond"][0] == "gap"]
@@ -1059,6 +1071,36 @@ def run_one(scn: tuple, plan: list[dict], seed: int):  # noqa: ANN201
         return viol, obs, info
     finally:
         w.close()
+
+
+def _start_waiter(w: TunnelWorld, mon: Monitor, icp: Interceptor, c, app: dict) -> None:  # noqa: ANN001
+    """
+    The application dimension: a coroutine awaits `circuit.ready` (as REST /circuits/test, create_introduction_point,
+    asyncio.wait_for(circuit.ready, t) ... do) and is cancelled / times out after `cancel_after` hops were added, i.e.
+    before the next answer arrives.  Cancelling the awaiting task cancels the awaited future - plain asyncio semantics.
+    """
+    import asyncio
+
+    async def wait() -> None:
+        await c.ready
+
+    task = w.nodes["O"].run(asyncio.ensure_future, wait(), loop=w.loop)
+    w.loop.settle()
+    k = app["cancel_after"]
+
+    def cancel() -> None:
+        if not task.done():
+            task.cancel()
+            icp.applied.append(f"app:waiter-cancelled-after-{k}")
+
+    if k == 0:
+        cancel()
+        w.loop.settle()
+    else:
+        def on_accept(rec: dict) -> None:
+            if rec["accepted"] and rec["index"] == k - 1:
+                cancel()
+        mon.accept_listeners.append(on_accept)
 
 
 def _batch_delivery(w: TunnelWorld, icp: Interceptor) -> None:
@@ -1367,6 +1409,24 @@ def build_jobs(thorough: bool, seed: int) -> tuple[list, dict]:
         jobs.append((scn, [sched]))
         jobs += [(scn, [m, sched]) for m in batch]
         n_batch = len(batch) + 1
+        n_app = 0
+        if ncirc == 1:
+            # application waiter on circuit.ready, cancelled before each answer; alone, and with every duplicate of every
+            # answer (settled delivery; the immediate duplicates also in batch mode)
+            waiters = [{"site": "app", "op": "waiter", "cancel_after": k} for k in range(h)]
+            if spare:
+                waiters = [dict(m, free_exit=True) for m in waiters]
+            dups = [] if spare else [m for m in singles if m["op"] == "dup" and m["site"] in ("link0", "enc")]
+            for wt in waiters:
+                jobs.append((scn, [wt]))
+                jobs.append((scn, [wt, sched]))
+                n_app += 2
+                for m in dups:
+                    jobs.append((scn, [m, wt]))
+                    n_app += 1
+                    if tuple(m["when"]) == ("sends", 0):
+                        jobs.append((scn, [m, wt, sched]))
+                        n_app += 1
         n_hist = 0
         if ncirc == 1 and not spare:
             for removal, reintro, where in (("none", "all", "all"), ("foreign", "all", "all"), ("foreign", "O", "all"),
@@ -1386,7 +1446,7 @@ def build_jobs(thorough: bool, seed: int) -> tuple[list, dict]:
                     n_pairs += 1
         stats["batch"] = stats.get("batch", 0) + n_batch
         stats["scenarios"].append({"h": h, "circuits": ncirc, "spares": spare, "single_manipulations": len(singles),
-                                   "batch_mode_plans": n_batch, "peer_moved_histories": n_hist,
+                                   "batch_mode_plans": n_batch, "peer_moved_histories": n_hist, "app_waiter_plans": n_app,
                                    "pairs": n_pairs, "candidates_enc_len": lens})
         stats["singles"] += len(singles)
         stats["pairs"] += n_pairs
